@@ -17,7 +17,8 @@ CONSTANTS KemSet, KdfSet, AeadSet, ModeSet,
           ShotsOnly,     \* TRUE: no streaming contexts at all, only single-shot calls
           ShotDl,        \* "msg": single-shot opens get the verbatim message only; "tamper": also modified ones
           Impost,        \* TRUE: after the honest sender, an impostor sender "i" may set up too (C08)
-          Shape,         \* "all": every value combination; "one": one combination per (suite, mode)
+          SweepMax,      \* Shape "sweep": largest length
+          Shape,         \* "sweep" | "all": every value combination; "one": one combination per (suite, mode)
           EmitWiring,    \* TRUE: print the C15 wiring records
           Emit,          \* TRUE: print every generated transition (and the key-derivation prologue)
           HistLen,       \* print behaviours when hist has this many steps (generation runs)
@@ -75,7 +76,16 @@ OnePair(mo) == IF mo \in PskModes
                        [] Vals = "long" -> <<Leaf("psk65536", 65536), Leaf("pskid65535", 65535)>>
                        [] OTHER -> <<Leaf("pskd", 160), Leaf("pskidd", 160)>>)
                ELSE <<<<>>, <<>>>>
+\* "sweep": one field at a time takes EVERY length 0..SweepMax (a value cut at some internal buffer size shows)
+SweepLens == 0..SweepMax
+SweepParams ==
+    UNION {{SP(su, mo, Leaf("infoL" \o ToString(n), n), OnePair(mo)) : su \in Suites, n \in SweepLens} : mo \in ModeSet}
+    \cup UNION {{SP(su, mo, OneInfo, <<Leaf("pskL" \o ToString(n), n), Leaf("pskidd", 160)>>) : su \in Suites, n \in SweepLens \ {0}}
+                : mo \in ModeSet \cap PskModes}
+    \cup UNION {{SP(su, mo, OneInfo, <<Leaf("pskd", 160), Leaf("pskidL" \o ToString(n), n)>>) : su \in Suites, n \in SweepLens \ {0}}
+                : mo \in ModeSet \cap PskModes}
 SenderParams ==
+    IF Shape = "sweep" THEN SweepParams ELSE
     IF Shape = "one"
     THEN {SP(su, mo, OneInfo, OnePair(mo)) : su \in Suites, mo \in ModeSet}
          \* deviation D2: a PSK mode with an EMPTY bundle is accepted by the library (and is not Base / Auth)
@@ -126,6 +136,11 @@ Variant(p, k) ==
                              ELSE {})
       \* X25519: small-order encapsulated key / sender identity key handed to the receiver (C10)
       [] k = "encsmall" -> IF kem = KEM_X25519 THEN {[m EXCEPT !.enc = Lit(e)] : e \in SmallOrderEncodings} ELSE {}
+      \* other encodings / lengths of the encapsulated key: compressed forms (NIST), one byte cut off or added
+      [] k = "encform" -> {[m EXCEPT !.enc = v] :
+                              v \in {Take(m.enc, Nenc(kem) - 1), Cat(m.enc, Lit(<<0>>)), Drop(m.enc, 1)}
+                                    \cup (IF kem \in NistKems
+                                         THEN {Cat(Lit(<<t>>), Take(Drop(m.enc, 1), Nsk(kem))) : t \in {2, 3}} ELSE {})}
       [] k = "encsmall1" -> IF kem = KEM_X25519 THEN {[m EXCEPT !.enc = Lit(SmallOrderBase[6])]} ELSE {}
       [] k = "pkssmall" -> IF kem = KEM_X25519 /\ p.mode \in AuthModes
                            THEN {[m EXCEPT !.pkS = Lit(e)] : e \in SmallOrderEncodings} ELSE {}
@@ -174,7 +189,7 @@ MC_DeliveryMenu(snt) ==
 
 MC_ExportMenu == IF Vals = "long"
                  THEN {<<Leaf("ectx70000", 70000), 32>>, <<Leaf("ectx65536", 65536), 8160>>, <<<<>>, 70000>>, <<<<>>, 65536>>}
-                 ELSE {<<<<>>, 32>>, <<Leaf("ectx", 11), 32>>, <<Lit(<<0>>), 16>>}
+                 ELSE {<<<<>>, 32>>, <<Leaf("ectx", 11), 32>>, <<Lit(<<0>>), 16>>, <<Leaf("ectx65536", 65536), 32>>}
 
 NoMenu(x) == {}
 NoMenu2(x, y) == {}
@@ -243,17 +258,19 @@ InOrder == ~Ordered \/ Rank(last.op) <= Rank(last'.op)
 
 \* C10 / C13: what a failed setup looks like
 SetupFailures ==
-    (last.op \in {"setup_s", "single_shot_seal"} /\ last.kind = "err") => last.err \in {E_ENC, "InvalidPskBundle"}
+    \* (E_LEN / InvalidPskBundle come from the deserialisers and PskBundle::new that precede the call)
+    (last.op \in {"setup_s", "single_shot_seal"} /\ last.kind = "err") => last.err \in {E_ENC, "InvalidPskBundle", E_LEN}
 SetupFailuresR ==
-    (last.op = "setup_r" /\ last.kind = "err") => last.err \in {E_DEC, "InvalidPskBundle"}
+    (last.op = "setup_r" /\ last.kind = "err") => last.err \in {E_DEC, "InvalidPskBundle", E_LEN}
 NoCtxOnFailure ==
     (last.op \in {"setup_s", "setup_r"} /\ last.kind = "err") => last.c \notin DOMAIN ctx
+BadTagLen == last.op = "single_shot_open" /\ last.form = "detached" /\ BLen(last.bytes.tag) # Nt(last.plain.suite[3])
 SmallOrderRefused ==
     /\ (last.op \in {"setup_s", "single_shot_seal"} /\ IsSmallOrder(last.plain.suite[1], last.bytes.pk_r))
           => (last.kind = "err" /\ last.err = E_ENC)
-    /\ (last.op \in {"setup_r", "single_shot_open"} /\ IsSmallOrder(last.plain.suite[1], last.bytes.enc))
+    /\ (last.op \in {"setup_r", "single_shot_open"} /\ IsSmallOrder(last.plain.suite[1], last.bytes.enc) /\ ~BadTagLen)
           => (last.kind = "err" /\ last.err = E_DEC)
-    /\ (last.op \in {"setup_r", "single_shot_open"} /\ last.plain.mode \in AuthModes
+    /\ (last.op \in {"setup_r", "single_shot_open"} /\ last.plain.mode \in AuthModes /\ ~BadTagLen
           /\ IsSmallOrder(last.plain.suite[1], last.bytes.pk_s)) => (last.kind = "err" /\ last.err = E_DEC)
 \* ... and nothing else is refused: a setup fails only for a small-order key (or a malformed PSK bundle)
 OnlySmallOrderRefused ==
